@@ -67,7 +67,7 @@ def run(ctx):
     ctx.extra["cases_model_checked"] = mc.distinct
     ctx.sample({"features": [G.gff3_line(f) for f in cases[-1]["feats"]], "options": cases[-1]["cfg"], "expected_gaps": cases[-1]["exp"]})
     # D2 introns / splice sites
-    models = [I.random_model(ctx.rng) for _ in range(3000 if thorough else 300)]
+    models = [I.random_model(ctx.rng) for _ in range(3000 if thorough else 800)]
     exp = I.oracle(ctx, models)
     for m, e in zip(models, exp):
         case = {"model": m, "lines": I.model_lines(m)}
